@@ -7,10 +7,14 @@
   `forest specx <op> <labels…>` answers `1` iff the model's own result of the call is, handle
   for handle, the specification with xot's survivor rule (`Keep.resident`): a model-internal
   cross-check of the statements proved in `Props/C05.lean`.
+  `forest specp <op> …` / `specpx`: the PAIR reading (`Model/FspecSpec3.lean`, `FspecSpec4.lean`), defined
+  for every forest: the six basic calls, `unwrap`, `wrap`, `replace` (`specReplaceP`; `specpc` = 1 in
+  the corner where xot differs from it); `specpk` / `specpkx`: `replace` as xot does it (`specReplaceK`).
 -/
 import XotModel.Model.FspecSpec
 import XotModel.Model.FspecSpec2
 import XotModel.Model.FspecSpec3
+import XotModel.Model.FspecSpec4
 import XotModel.Driver.Forest
 
 namespace XotModel.Driver
@@ -118,6 +122,28 @@ def specPOf (s : FState) (ws : List String) : Option (Forest × Forest × Bool) 
   | ["detach", a] => do
       let n ← node a
       some (specDetachP n f, (f.detach n).1, false)
+  -- the composite calls (`Model/FspecSpec4.lean`); `element_wrap` merges nothing: `specWrap` is its
+  -- own pair reading.  `replace`: the reading the property demands; the third component tells
+  -- the corner `selfMergeReplace`, in which xot differs from it (`specpk` shows xot's reading)
+  | ["unwrap", a] => do
+      let n ← node a
+      some (specUnwrapP n f, (f.elementUnwrap n).1, false)
+  | ["wrap", a, nm] => do
+      let n ← node a; let nm ← nm.toNat?
+      some (specWrap n nm f, (f.elementWrap n nm).1, false)
+  | ["replace", a, b] => do
+      let o ← node a; let n ← node b
+      some (specReplaceP o n f, (f.replace o n).1, selfMergeReplace f o n)
+  | _ => none
+
+/-- `replace` as xot does it (`specReplaceK`): equal to the model's result on every forest. -/
+def specKOf (s : FState) (ws : List String) : Option (Forest × Forest) :=
+  let node (w : String) : Option Nat := do s.handleOf (← w.toNat?)
+  let f := s.forest
+  match ws with
+  | ["replace", a, b] => do
+      let o ← node a; let n ← node b
+      some (specReplaceK o n f, (f.replace o n).1)
   | _ => none
 
 def handleFspec (s : FState) (ws : List String) : Option String :=
@@ -133,6 +159,12 @@ def handleFspec (s : FState) (ws : List String) : Option String :=
   | "specpc" :: rest => do
       let (_, _, corner) ← specPOf s rest
       some (if corner then "1" else "0")
+  | "specpk" :: rest => do
+      let (sp, _) ← specKOf s rest
+      some (contentDump s sp)
+  | "specpkx" :: rest => do
+      let (sp, md) ← specKOf s rest
+      some (if rawDump sp == rawDump md then "1" else "0")
   | "spec" :: rest => do
       let (sp, _) ← specOf s rest false
       some (contentDump s sp)
